@@ -2,6 +2,7 @@ package retriever
 
 import (
 	"fmt"
+	"path"
 	"sort"
 	"time"
 
@@ -166,11 +167,14 @@ func (s Manifest) validate() error {
 				return fmt.Errorf("manifest graph %q contains empty file path", graphEntry.Name)
 			}
 
-			if _, seen := seenFiles[fileEntry.Path]; seen {
+			// Different spellings of one path (./a, a, b/../a) name the same file
+			cleanedPath := path.Clean(fileEntry.Path)
+
+			if _, seen := seenFiles[cleanedPath]; seen {
 				return fmt.Errorf("manifest lists file %q more than once", fileEntry.Path)
 			}
 
-			seenFiles[fileEntry.Path] = struct{}{}
+			seenFiles[cleanedPath] = struct{}{}
 
 			switch fileEntry.Phase {
 			case PhaseNodes:
